@@ -36,7 +36,7 @@ const (
 	settleBound   = 3 * time.Second
 	pollSettle    = 4 * time.Second
 	noReflSettle  = 150 * time.Millisecond
-	probeTimeout  = 3 * time.Second
+	probeTimeout  = 10 * time.Second
 	stkMime       = "application/x-stk+json"
 	probeParallel = 8
 )
@@ -449,7 +449,11 @@ func (e *env) probeGRPCWeb(p probe) string {
 }
 
 func (e *env) dialWeb() (*fake.RawConn, error) {
-	return fake.Dial(e.web.Listener.Addr().String())
+	rc, err := fake.Dial(e.web.Listener.Addr().String())
+	if err == nil {
+		_ = rc.C.SetDeadline(time.Now().Add(probeTimeout)) // a loaded machine must not turn into a protocol surprise
+	}
+	return rc, err
 }
 
 func (e *env) probeGRPCWS(p probe) string {
@@ -503,8 +507,21 @@ func (j jsonMsg) msg() msg {
 	return msg{id: j.ID, sub: j.Sub, target: j.Target, method: j.Method, nested: j.Nested.Name}
 }
 
+// bodyKind strips the Content-Type selector of an H probe: "*j" = body "*" sent as application/json,
+// "*k" = body "*" sent as application/x-stk+json (the MIME type of the custom marshaler of opt=1).
+func bodyKind(b string) (kind, contentType string) {
+	switch b {
+	case "*j":
+		return "*", "application/json"
+	case "*k":
+		return "*", stkMime
+	}
+	return b, ""
+}
+
 func jsonBody(p probe) []byte {
-	switch p.body {
+	kind, _ := bodyKind(p.body)
+	switch kind {
 	case "*":
 		b, _ := json.Marshal(map[string]string{"sub": p.sub})
 		return b
@@ -533,6 +550,9 @@ func (e *env) probeHTTP(p probe) string {
 	req, err := http.NewRequest(p.hm, e.web.URL+p.path, rd)
 	if err != nil {
 		return "!req"
+	}
+	if _, ct := bodyKind(p.body); ct != "" {
+		req.Header.Set("Content-Type", ct)
 	}
 	resp, err := e.httpc.Do(req)
 	if err != nil {
